@@ -34,3 +34,7 @@ def native(tier, seed):
 def replay_native(native):
     from vf import sched_native
     return sched_native.replay(native)
+
+
+# thorough tier: deliberate edits that must turn an obligation red (applied to a scratch copy, never to /repo)
+MUTATIONS = [('contracts.local', 'finish_task', 'dask/local.py', '            if not s and dep not in results:', '            if not s and key not in results:'), ('contracts.local', 'start_state_from_dask', 'dask/local.py', '                waiting_data[dep].add(key)', '                pass'), ('contracts.local', 'get_async.fire_tasks', 'dask/local.py', '                    state["running"].add(key)', '                    pass'), ('contracts.local', 'release_data', 'dask/local.py', '    state["released"].add(key)', '    pass')]
